@@ -38,6 +38,7 @@ typedef struct qnode {
 	// queue-specific model (C18)
 	void *spec[4];
 	char spec_dup[4], spec_temp[4];   // set by two threads at once (same value) / set by two threads at once and removed again before anything runs
+	dispatch_queue_t late_tq;   // initially inactive queue whose target is set by the activating thread, right before dispatch_activate
 	char label[24];
 	// dispatch_set_target_queue on an active leaf queue (C03): new target, stamps of the call
 	int retarget_to; uint64_t rt_call, rt_ret;
